@@ -50,6 +50,10 @@ func (q *PromQueryRangeController) QueryRange(w http.ResponseWriter, r *http.Req
 	}
 	req.Start = time.Unix(req.Start.Unix()/15*15, 0)
 	req.End = time.Unix(int64(math.Ceil(float64(req.End.Unix())/15)*15), 0)
+	if req.End.Before(req.Start) {
+		PromError(400, "end timestamp must not be before start time", w)
+		return
+	}
 	if req.Step <= 0 {
 		PromError(400,
 			"zero or negative query resolution step widths are not accepted. Try a positive integer",
